@@ -1,6 +1,6 @@
 import Usual.Gen.C05TSha512
 /-!
-# C05 translation tie, SHA-512 (part A): the 80 unrolled rounds of `sha512_core`, folded
+# C05 translation tie, SHA-512 (part A): the 64 unrolled rounds of `sha512_core`, folded
 
 `Usual.Gen.C05TSha512.sha512_core` (regenerated from usual/crypto/sha512.c on every run) is a chain
 of 1217 `let`s.  This file states what one `SHA512_ROUND` block does (`Rlo` for `t < 16`, `Rhi` on the
@@ -64,9 +64,9 @@ def startG (ctx : sha512_ctx) : S :=
     e := ctx.state.getD 4 0#64, f := ctx.state.getD 5 0#64, g := ctx.state.getD 6 0#64, h := ctx.state.getD 7 0#64,
     w := ctx.buf_words }
 
+set_option maxHeartbeats 2000000 in
 /-- the 80 unrolled rounds of the generated `sha512_core`, folded: what clang reads is
 `finishG ctx (roundG 79 (… (roundG 0 (startG ctx))))` -/
-set_option maxHeartbeats 2000000 in
 theorem core_eq_rounds (ctx : sha512_ctx) :
     sha512_core ctx = finishG ctx ((List.range 80).foldl (fun s t => roundG t s) (startG ctx)) := by
   unfold sha512_core
